@@ -39,7 +39,7 @@ CLAIMED = {
             "4.C18"),
     "C12": ("contract proof: Listeners.search_name (every provider of a name contributes one pair), CallbacksExecutor.add (dedupe by key, one wrapper per new key inserted by priority) and CallbackWrapper.__lt__, the registry/executor/wrapper chain (all providers' wrappers invoked, guard conjunction), combinator keys; BOUNDED API layer for Listeners.resolve/build and add_listener, probe for equal-but-distinct listeners; recorded witnesses replayed",
             "4.C12"),
-    "C15": ("contract proof of the builders' core (add_transitions, spec add chain, Transition.__init__, _copy_with_args over its real body, from_.any() expansion); BOUNDED layers for the rest: 20 declaration styles of random abstract machines written as class-body source and compared on structure and behaviour, API layer; recorded witness",
+    "C15": ("contract proof of the builders' core (add_transitions, spec add chain incl. add/_add of a ready-made spec over the real isinstance branch, Transition.__init__, State.__init__, _copy_with_args over its real body, from_.any() expansion); BOUNDED layers for the rest: 20 declaration styles of random abstract machines written as class-body source and compared on structure and behaviour, API layer; recorded witness",
             "4.C15"),
     "C16": ("ownership frame scan over every heap write site of the package (committed ownership table; rebinding of module globals included; the cached event loop must be a threading.local) + StateMachine.__init__/BaseEngine.__init__ freshness clauses; BOUNDED API layer and signature special cases (one class body, one factory, one class name in two definitions); recorded witnesses",
             "4.C16"),
